@@ -115,6 +115,25 @@ pub fn run(tier: Tier) {
     }
     ctx.add_part(part);
 
+    if tier.thorough() {
+        // every 3-byte string (2^24), in slices to bound memory
+        let mut part = Part::new("three_byte_strings", "every byte string of length 3 (16 777 216 strings), n = 512 and 1024");
+        for a in 0..=255u8 {
+            let strings: Vec<Vec<u8>> = (0..65536u32).map(|k| vec![a, (k >> 8) as u8, k as u8]).collect();
+            let (st, f, n) = sweep(strings);
+            merge(&mut total, &st);
+            part.states += n;
+            part.transitions += 3 * n;
+            part.validated += 2 * n;
+            for x in f {
+                ctx.violation(x.key, x.what, x.case);
+            }
+        }
+        part.exhaustive = true;
+        part.outcome("all equal to Algorithm 3".to_string());
+        ctx.add_part(part);
+    }
+
     // block-boundary lengths, every fill byte
     let lens = [3usize, 40, 41, 45, 135, 136, 137, 271, 272, 273, 1000];
     let mut strings = vec![];
